@@ -3,7 +3,7 @@
 Interface used by aspire: Sampler(log_prob_fn, step_fn, rng, dims, target_acceptance_rate, xp=None)
 and .sample(z0, n_steps) -> (chain[n_steps+1, N, d], history) with history.acceptance_rate.
 The kernel is a plain random-walk Metropolis step that draws ONLY from the generator it is handed
-(rng.normal, rng.uniform), so aspire's adapter code runs unmodified and runs are replayable.
+(rng.integers, rng.normal, rng.uniform), so aspire's adapter code runs unmodified and runs are replayable.
 """
 import numpy as np
 
@@ -52,7 +52,10 @@ class Sampler:
         chain = [z.copy()]
         acc = []
         for _ in range(int(n_steps)):
-            prop = z + self.step_size * np.asarray(self.rng.normal(size=z.shape), dtype=float)
+            # one small-integer draw per step (a random choice among three step scales): numpy serves it from a buffered 32-bit
+            # half-word, so the generator's FULL state (not only its 128-bit counter) matters to whoever saves and restores it
+            k = int(self.rng.integers(0, 3))
+            prop = z + self.step_size * (0.5 + 0.5 * k) * np.asarray(self.rng.normal(size=z.shape), dtype=float)
             lpp = _to_np(self.log_prob_fn(self._wrap(prop, z0))).reshape(-1)
             u = np.asarray(self.rng.uniform(size=len(z)), dtype=float)
             with np.errstate(all="ignore"):
